@@ -119,12 +119,44 @@ def fjsp_reader_layout(ctx: Ctx, pj):
     return order_r, adv, nops_ok, why_r
 
 
+def restored_keys_keep_their_namespace(ctx: Ctx):
+    """C19.j a checkpoint's state-dict keys are hierarchical names (`policy.encoder...`, `baseline.baseline.policy.encoder...`).
+    Code that rewrites them before `load_state_dict` (dict comprehensions over `state_dict.items()` in rl4co/models) may REMOVE a
+    prefix (`k.replace(p, "", 1)`, `k.removeprefix(p)`, `k[len(p):]`) but not take the TAIL after a separator
+    (`k.split(p, 1)[-1]`, `k.rsplit(...)`, `k.partition(p)[2]`): tail-taking drops what stands in front of the prefix, so
+    `baseline.baseline.policy.x` and `policy.x` land on one key and the later entry -- the frozen baseline copy -- overwrites
+    the trained weights that were saved."""
+    n = 0
+    for name, mi in sorted(ctx.repo.modules.items()):
+        if not name.startswith("rl4co.models"):
+            continue
+        for dc in ast.walk(mi.tree):
+            if not isinstance(dc, ast.DictComp) or not dc.generators:
+                continue
+            g = dc.generators[0]
+            if not (isinstance(g.iter, ast.Call) and isinstance(g.iter.func, ast.Attribute) and g.iter.func.attr == "items" and "state_dict" in ast.unparse(g.iter.func.value)):
+                continue
+            kname = g.target.elts[0].id if isinstance(g.target, ast.Tuple) and g.target.elts and isinstance(g.target.elts[0], ast.Name) else None
+            if kname is None or (isinstance(dc.key, ast.Name) and dc.key.id == kname):
+                continue            # keys copied unchanged (a filter)
+            n += 1
+            tails = [ast.unparse(x)[:50] for x in ast.walk(dc.key) if isinstance(x, ast.Subscript) and isinstance(x.value, ast.Call) and isinstance(x.value.func, ast.Attribute)
+                     and x.value.func.attr in ("split", "rsplit", "partition", "rpartition")]
+            ctx.ob("C19.j", f"{mi.relpath}:{dc.lineno}:restored-keys-keep-their-namespace", not tails, f"{mi.relpath}:{dc.lineno}",
+                   f"key rewrite `{ast.unparse(dc.key)[:60]}` removes a prefix and keeps the rest of the name" if not tails else
+                   f"key rewrite `{tails[0]}` keeps only the tail after the separator: names that differ in front of it collapse onto one key and overwrite each other",
+                   construct=f"{mi.relpath}:state-dict-key-rewrite:tail-taking")
+    if n < 2:
+        raise AnalysisError(f"state-dict key rewrites lost: {n} < 2 (PolyNet base-model restore, REINFORCE baseline restore)")
+
+
 def run(ctx: Ctx):
     no_memoised_readers(ctx)
     dataset_files_in_order(ctx)
     directory_listings_sorted(ctx)
     round_trip_conventions(ctx)
     hparams_keep_policy(ctx)
+    restored_keys_keep_their_namespace(ctx)
     # ---------------- a: npz
     sv = ctx.repo.get_function(DU, "save_tensordict_to_npz")
     ld = ctx.repo.get_function(DU, "load_npz_to_tensordict")
